@@ -458,7 +458,15 @@ fn slice(tier: Tier) -> Vec<(String, PProblem)> {
             _ => usize::MAX,
         };
         let step = (problems.len() / per.clamp(1, problems.len().max(1))).max(1);
-        out.extend(problems.into_iter().step_by(step).take(per).map(|p| (name.to_string(), p)));
+        // conditional jobs which differ by their index only (untagged reloads) are always part of the slice
+        let special: Vec<PProblem> = problems.iter().filter(|p| p.name.contains("untagged")).cloned().collect();
+        let mut picked: Vec<PProblem> = problems.into_iter().step_by(step).take(per).collect();
+        for p in special {
+            if !picked.iter().any(|q| q.name == p.name) {
+                picked.push(p);
+            }
+        }
+        out.extend(picked.into_iter().map(|p| (name.to_string(), p)));
     }
     // recharge stations, required breaks, time-dependent matrices
     let step = tier.pick(6, 1);
